@@ -114,7 +114,10 @@ pub fn child_main(path: &str) -> i32 {
     let v: Value = serde_json::from_slice(&std::fs::read(path).expect("read")).expect("json");
     let scn: Scn = serde_json::from_value(v).expect("scenario");
     let (run, banks) = kind_banks(&scn.event, scn.seed);
-    match with_hash_key(0xC411D, || digest(run, &banks)) {
+    // the hash key under which this process computes (and lazily initialises whatever the
+    // library keeps in hash maps): chosen by the parent
+    let key = std::env::var("VERIF_C11_CHILD_KEY").ok().and_then(|k| k.parse::<u64>().ok()).unwrap_or(0xC411D);
+    match with_hash_key(key, || digest(run, &banks)) {
         Ok((d, s)) => {
             println!("DIGEST {d} {s}");
             0
@@ -137,7 +140,7 @@ impl Check for C11Check {
         true
     }
     fn rule(&self) -> String {
-        "scenario = one simulated main event (forward-model event with 2-5 tracks and ADC noise; synthetic hit pattern incl. seam blocks and full ring; event with one event-builder inconsistency, notably duplicated banks whose copies differ; extreme-value event) and a schedule of trials: bank-list permutations {identity, reversal, rotations, seeded shuffles (PWB chunks scattered among other banks), adjacent transpositions - ALL of them for events of <= 40 banks, sampled otherwise} x hash keys (>= 4 distinct per event, installed through the getrandom seam on a fresh 64 MiB-stack thread per trial) x placement {twice on the same thread, another thread, after a large event and 1-2 mostly REJECTED events (any of the 34 event-builder faults, extreme packets) computed on the same thread, another PROCESS (child harness process)}; each scenario exists for the release and the overflow-checked build. Oracle: every trial of one event returns the same digest = Err, or (u32 timestamp, bit patterns of t/phi/z/wire_amplitude/pad_amplitude of every avalanche in list order, bit patterns of the vertex). Non-trivial = at least 4 trials executed on an event with >= 2 banks; distinct = distinct event-log hashes (bank bytes + trial list + digest).".into()
+        "scenario = one simulated main event (forward-model event with 2-5 tracks and ADC noise; synthetic hit pattern incl. seam blocks and full ring; event with one event-builder inconsistency, notably duplicated banks whose copies differ; extreme-value event) and a schedule of trials: bank-list permutations {identity, reversal, rotations, seeded shuffles (PWB chunks scattered among other banks), adjacent transpositions - ALL of them for events of <= 40 banks, sampled otherwise} x hash keys (>= 4 distinct per event, installed through the getrandom seam on a fresh 64 MiB-stack thread per trial) x placement {twice on the same thread, another thread, after a large event and 1-2 mostly REJECTED events (any of the 34 event-builder faults, extreme packets) computed on the same thread, two other PROCESSES (child harness processes, each under its own hash key from the start)}; each scenario exists for the release and the overflow-checked build. Oracle: every trial of one event returns the same digest = Err, or (u32 timestamp, bit patterns of t/phi/z/wire_amplitude/pad_amplitude of every avalanche in list order, bit patterns of the vertex). Non-trivial = at least 4 trials executed on an event with >= 2 banks; distinct = distinct event-log hashes (bank bytes + trial list + digest).".into()
     }
     fn assumptions(&self) -> Vec<String> {
         vec![
@@ -165,7 +168,15 @@ impl Check for C11Check {
         let mut r = Rng::new(seed);
         let event = match i % 8 {
             0 | 1 => Kind::Fwd { tracks: r.usize(2, 5), noise: *r.pick(&[0.0, 2.0, 5.0]), amp_scale: 1.0 },
+            // hit patterns on calibrated real runs (maps, delays, calibration tables of that run)
+            2 if i % 16 == 10 => Kind::RealHits { run: *r.pick(&[11084u32, 11192, 12000, 9277, 10418]), pattern: *r.pick(&[3u8, 1, 7, 5, 3]), n: *r.pick(&[256usize, 40, 256]) },
             2 => Kind::Hits { pattern: r.below(8) as u8, n: *r.pick(&[13usize, 20, 40, 256]) },
+            // consistent events on calibrated real runs with every wire and several pad groups:
+            // whatever the library derives from its calibration tables takes part in the result
+            5 if i % 16 == 5 => Kind::EvFault {
+                base: BaseEvent { run: *r.pick(&[11084u32, 11192, 12000, 9277, 10418]), seed: r.next_u64(), n_wires: 256, n_pad_msgs: 4, long_only: true, pad_start: None, suppressed_only: false },
+                slot: 100,
+            },
             3 | 4 | 5 => Kind::EvFault {
                 base: BaseEvent { run: *r.pick(&[u32::MAX, u32::MAX, 11084, 9277]), seed: r.next_u64(), n_wires: *r.pick(&[1usize, 3, 9, 24, 40, 80, 256]), n_pad_msgs: r.usize(0, 4), long_only: r.chance(1, 2), pad_start: None, suppressed_only: false },
                 // duplicates (slots 3..=7) and pad faults favoured
@@ -174,7 +185,7 @@ impl Check for C11Check {
             6 => Kind::Extreme { wires: *r.pick(&[2usize, 9, 40]), wire_mode: r.below(8) as u8, wire_len: *r.pick(&[101usize, 130, 300]), pad_msgs: r.usize(0, 3), pad_mode: r.below(8) as u8, pad_req: *r.pick(&[101u16, 120, 300]), pad_channels: *r.pick(&[3usize, 20, 79]), seam: r.chance(1, 2) },
             _ => Kind::Fwd { tracks: 2, noise: 0.0, amp_scale: *r.pick(&[0.2, 3.0]) },
         };
-        let heavy = matches!(event, Kind::Fwd { .. } | Kind::Hits { .. });
+        let heavy = matches!(event, Kind::Fwd { .. } | Kind::Hits { .. } | Kind::RealHits { .. });
         let k: Vec<u64> = (0..4).map(|_| r.next_u64()).collect();
         let mut trials = vec![
             Trial { perm: Perm::Identity, hash_key: k[0], twice: true, after_other: false },
@@ -316,12 +327,21 @@ impl Check for C11Check {
                 let scratch = crate::procsim::Scratch::new("c11");
                 let path = scratch.dir.join(format!("c11-{}-{:x}.json", std::process::id(), scn.seed));
                 std::fs::write(&path, scenario.to_string()).expect("write child scenario");
-                let out = std::process::Command::new(exe_for_mode(&scn.mode)).arg("c11digest").arg(&path).output().expect("spawn child");
+                // two other processes, each with its own hash key from its first instruction on
+                // (lazily initialised tables of the library are built under that key)
+                let mut text = String::new();
+                let mut got = Some(*d0);
+                for child_key in [scn.seed | 1, !scn.seed & !1] {
+                    let out = std::process::Command::new(exe_for_mode(&scn.mode)).arg("c11digest").arg(&path).env("VERIF_C11_CHILD_KEY", child_key.to_string()).output().expect("spawn child");
+                    text = String::from_utf8_lossy(&out.stdout).to_string();
+                    stats.executions += 1;
+                    stats.probe("other_process_trials");
+                    got = text.lines().find_map(|l| l.strip_prefix("DIGEST ")).and_then(|l| l.split(' ').next()?.parse::<u64>().ok());
+                    if got != Some(*d0) {
+                        break;
+                    }
+                }
                 let _ = std::fs::remove_file(&path);
-                let text = String::from_utf8_lossy(&out.stdout).to_string();
-                stats.executions += 1;
-                stats.probe("other_process_trials");
-                let got = text.lines().find_map(|l| l.strip_prefix("DIGEST ")).and_then(|l| l.split(' ').next()?.parse::<u64>().ok());
                 if got != Some(*d0) {
                     viol.push(Violation {
                         invariant: "C11.result-depends-on-process".into(),
